@@ -193,11 +193,18 @@ pub(crate) fn add_regex_priv_match<W, R, T>(
                 Some(i3) => i3,
                 None => return xerr(ManagedXError::new("end index out of range", rt)?),
             };
+            // the indices of the language count code points, the automata count bytes (indices past the end mean the end)
+            let hay = s1.as_str();
+            let b2 = s1.substr(0, Some(i2)).len();
+            let b3 = s1.substr(0, Some(i3)).len();
             let mut cache = r0.dfa.create_cache();
             let mut search_iter = rt.limits.search_iter();
-            let base_inp = Input::new(s1.as_str()).anchored(Anchored::Yes);
+            let base_inp = Input::new(hay).anchored(Anchored::Yes);
             let (offset, len) = 'o_l: {
-                for offset in i2..=i3 {
+                for offset in b2..=b3 {
+                    if !hay.is_char_boundary(offset) {
+                        continue;
+                    }
                     let inp = base_inp.clone().range(offset..);
                     if let Some(i) = xraise!(match_at(
                         &r0.dfa,
@@ -229,10 +236,12 @@ pub(crate) fn add_regex_priv_match<W, R, T>(
                 pairs.push(match sub_cap {
                     None => manage_native!(XOptional::<W, R, T> { value: None }, rt.clone()),
                     Some(m) => {
+                        let cp_start = hay[..m.start].chars().count();
+                        let cp_end = cp_start + hay[m.start..m.end].chars().count();
                         let start =
-                            ManagedXValue::new(XValue::Int(LazyBigint::from(m.start)), rt.clone())?;
+                            ManagedXValue::new(XValue::Int(LazyBigint::from(cp_start)), rt.clone())?;
                         let end =
-                            ManagedXValue::new(XValue::Int(LazyBigint::from(m.end)), rt.clone())?;
+                            ManagedXValue::new(XValue::Int(LazyBigint::from(cp_end)), rt.clone())?;
                         let t = ManagedXValue::new(
                             XValue::StructInstance(vec![start, end]),
                             rt.clone(),
